@@ -320,6 +320,21 @@ let query (p : pool) toks : string =
              (Bool.to_int (match x with Const _ -> true | _ -> false)) (Bool.to_int (match x with Not _ -> true | _ -> false))
              (Bool.to_int (match x with And _ -> true | _ -> false)) (Bool.to_int (match x with Or _ -> true | _ -> false))
        | _ -> "skip")
+  | ["nf"; i] ->
+      (match get i with
+       | Some { e_obj = OE x; e_opaque = false; _ } ->
+           let (n, c, d) = (nnf false x, to_cnf x, to_dnf x) in
+           let tv y = bits (obj_tv (OE y)) in
+           let ins y = names (literals y) in
+           let rec const_free = function Lit _ -> true | Const _ -> false | Not e -> const_free e | And es | Or es -> List.for_all const_free es in
+           (* C11: same function; for constant-free input the promised shapes *)
+           Printf.sprintf "nnf=%s cnf=%s dnf=%s shape=%d%d%d tvs=%s,%s,%s ins=%s;%s;%s%s"
+             (show_expr n) (show_expr c) (show_expr d)
+             (Bool.to_int (is_nnf n)) (Bool.to_int (is_cnf c)) (Bool.to_int (is_dnf d))
+             (tv n) (tv c) (tv d) (ins n) (ins c) (ins d)
+             (if const_free x then " s.shape=111" else "")
+       | Some { e_obj = OE _; _ } -> "nnf=* cnf=* dnf=* shape=* tvs=* ins=*"
+       | _ -> "skip")
   | ["weight"; i; expected] ->
       (match get i with
        | Some { e_obj = OB b; _ } ->
